@@ -313,7 +313,7 @@ def run(prog: Program, rep, tier="quick"):
                    "an iteration of the parents loop can end without pushing the parent although it was not visited: ancestors below it "
                    "are never reached, so a candidate lying only below it survives as an additional merge base",
                    loop.lineno)
-    if n5 < 1:
+    if n5 < 1 and filters:
         raise AnalysisError("no worklist loop found in the redundancy filter")
     # R13.6 one source of ancestry in walk.py: the walker's get_parents (which knows grafts, shallow boundaries and the
     # commit-graph).  `.parents` of a commit object is read only in the default of a get_parents parameter, and a helper
@@ -358,6 +358,9 @@ def run(prog: Program, rep, tier="quick"):
     cgm = prog.module("dulwich/commit_graph.py")
     c14.enumerate_last(prog, rep, "R13.3", cgm, prog.func(cgm.rel, "CommitGraph.write_to_file"))
     r13_4(prog, rep)
+    from sa.common import share
+    share(rep, lambda: c14.r14_1(prog, rep), "R13.7", lambda o: "ParentsProvider" in o.func,
+          "the ancestry every query uses (shared with R14.1): ParentsProvider consults grafts and shallow boundaries before the commit-graph and the object")
     rep.count("functions analysed", sum(n_funcs.values()))
     if n_funcs["dulwich/graph.py"] < 3 or n_funcs["dulwich/walk.py"] < 4:
         raise AnalysisError(f"too few traversal functions found: {n_funcs}")
